@@ -230,10 +230,27 @@ fn wrap(mut p: P, it: &J) -> P {
         }
         "count" => p.count().map(Val::Count).boxed(),
         "last" => p.last().boxed(),
-        "fallback" => p.fallback(fallback_val(it)).boxed(),
+        // the default may be shown in help: through Display (`DFLT`), Debug, or a formatter of the program's own
+        "fallback" => {
+            let f = p.fallback(fallback_val(it));
+            let tag: &'static str = leak(&format!("FMT-{}", id));
+            match s(it, "show_default") {
+                "display" => f.display_fallback().boxed(),
+                "debug" => f.debug_fallback().boxed(),
+                "format" => f.format_fallback(move |_v, w| write!(w, "{}", tag)).boxed(),
+                _ => f.boxed(),
+            }
+        }
         "fallback_with" => {
             let v = fallback_val(it);
-            p.fallback_with(move || Ok::<Val, String>(v.clone())).boxed()
+            let f = p.fallback_with(move || Ok::<Val, String>(v.clone()));
+            let tag: &'static str = leak(&format!("FMT-{}", id));
+            match s(it, "show_default") {
+                "display" => f.display_fallback().boxed(),
+                "debug" => f.debug_fallback().boxed(),
+                "format" => f.format_fallback(move |_v, w| write!(w, "{}", tag)).boxed(),
+                _ => f.boxed(),
+            }
         }
         "fallback_with_err" => p
             .fallback_with(move || Err::<Val, String>("FBERR".to_string()))
